@@ -45,11 +45,11 @@ def jobs(tier, seed):
     return js
 
 
-def make_analysis(cls, convergence_step=None, precision='float64', sparse=False):
+def make_analysis(cls, convergence_step=None, precision='float64', sparse=False, two_classes=False):
     A, models, disc, sfm = _m['analysis'], _m['models'], _m['disc'], _m['sf']
     attack = cls.endswith('Attack')
     dpa = cls.startswith('DPA')
-    model = models.Monobit(0) if dpa else models.Value()
+    model = models.Monobit(0) if (dpa or two_classes) else models.Value()
     if attack:
         @sfm.attack_selection_function(guesses=rnp.arange(3, dtype='uint8'))
         def sf(data, guesses):
@@ -66,7 +66,7 @@ def make_analysis(cls, convergence_step=None, precision='float64', sparse=False)
         kw['discriminant'] = disc.maxabs
         kw['convergence_step'] = convergence_step
     if cls.startswith(('ANOVA', 'NICV', 'SNR', 'MIA')):
-        kw['partitions'] = [0, 2] if sparse else list(range(8))
+        kw['partitions'] = [0, 1] if two_classes else ([0, 2] if sparse else list(range(8)))
     if cls.startswith('MIA'):
         kw['bin_edges'] = [0, 2, 4, 6, 8]
         kw['precision'] = 'uint32'
